@@ -631,12 +631,12 @@ fn compare_bigint(a: &BigInt, b: &BigInt) -> Ordering {
             .digits
             .len()
             .cmp(&b.digits.len())
-            .then_with(|| a.digits.cmp(&b.digits)),
+            .then_with(|| a.digits.iter().rev().cmp(b.digits.iter().rev())),
         (Sign::Negative, Sign::Negative) => a
             .digits
             .len()
             .cmp(&b.digits.len())
-            .then_with(|| a.digits.cmp(&b.digits))
+            .then_with(|| a.digits.iter().rev().cmp(b.digits.iter().rev()))
             .reverse(),
     }
 }
